@@ -481,18 +481,21 @@ func check(c *core.Ctx, sc stmtCase, t1 sqlparser.Statement, idx int) *construct
 		case cs.otherStmt && f.kind == "reparse":
 			// vitess keeps nothing of EXPLAIN/DESCRIBE/REPAIR/OPTIMIZE ...: the node prints a placeholder word
 			return "other-read-admin-placeholder"
-		case cs.emptyIdent && identSite:
-			// `t.&&` / `t.||` are accepted as a name whose part is the (empty) text of the token
+		case cs.emptyIdent:
+			// `t.&&` / `t.||` are accepted as a name whose part is the (empty) text of the token;
+			// what is printed (`t.` glued to whatever follows) can then read as anything
 			return "empty-name-part-from-symbolic-keyword"
-		case cs.oddDottedPart && identSite:
+		case cs.oddDottedPart:
 			return "dotted-name-part-retokenized"
 		case cs.setNameQuoted && f.kind == "reparse":
 			return "set-variable-name-needing-quotes-printed-bare"
 		case cs.rawQuotedName && (identSite || f.kind == "tree"):
 			// charset / collation / unit / type ... names are kept as Go strings and printed with %s
 			return "quoted-name-kept-as-raw-string-printed-bare"
-		case cs.types["DDL"] > 0 && partialDDL(sc.sql):
-			return "partially-parsed-ddl"
+		case cs.types["DDL"] > 0:
+			// vitess keeps only what its router needs of a DDL (ALTER/ANALYZE print as `alter table t`,
+			// trailing text after a partially parsed DDL is dropped)
+			return "ddl-printed-lossily"
 		}
 		return ""
 	}
@@ -531,18 +534,6 @@ func check(c *core.Ctx, sc stmtCase, t1 sqlparser.Statement, idx int) *construct
 	}
 	c.Count("outcome/only_known_defects", 1)
 	return cs
-}
-
-// partialDDL: Parse accepted the statement only through vitess' "partially parsed DDL" escape
-// hatch (the rest of the text was skipped), which ParseStrictDDL refuses.
-func partialDDL(sql string) (partial bool) {
-	defer func() {
-		if r := recover(); r != nil {
-			partial = false
-		}
-	}()
-	_, err := sqlparser.ParseStrictDDL(sql)
-	return err != nil
 }
 
 // dump is a development aid: VERIF_C30_DUMP=<file> appends every unattributed failure as a JSON line.
